@@ -126,7 +126,7 @@ fn run(r: &Rec) -> Ran {
                 (vs, try_op(|| {
                     let (mut o, same) = twice(|fill| {
                         let mut res = LWE::alloc(Degree(nl_out as u32), Base2K(h.out_b as u32), TorusPrecision((h.out_size * h.out_b) as u32));
-                        let mut sc = scratch(2 * m.lwe_keyswitch_tmp_bytes(&res, &a, &kp) + (1 << 16), fill);
+                        let mut sc = scratch(m.lwe_keyswitch_tmp_bytes(&res, &a, &kp), fill);
                         m.lwe_keyswitch(&mut res, &a, &kp, sc.borrow());
                         vec![lwe_dump(&res)]
                     });
@@ -149,8 +149,7 @@ fn run(r: &Rec) -> Ran {
                         let inplace = matches!(code, 3011 | 3013 | 3016 | 3017);
                         let mut res = if inplace { a.clone() } else { let mut t = GLWE::alloc_from_infos(&lo); t.data_mut().data.iter_mut().for_each(|b| *b = 0x5a); t };
                         let need = if inplace { m.glwe_automorphism_tmp_bytes(&res, &res, &kp) } else { m.glwe_automorphism_tmp_bytes(&lo, &a, &kp) };
-                        // generous: the cross-radix in-place add/sub variants need more than the declared size (C12's property)
-                        let mut sc = scratch(2 * need + (1 << 16), fill);
+                        let mut sc = scratch(need, fill);
                         match code {
                             3010 => m.glwe_automorphism(&mut res, &a, &kp, sc.borrow()),
                             3011 => m.glwe_automorphism_assign(&mut res, &kp, sc.borrow()),
@@ -216,12 +215,12 @@ fn run(r: &Rec) -> Ran {
                         if code == 3030 {
                             let lo = h.glwe_out();
                             let mut res = GLWE::alloc_from_infos(&lo);
-                            let mut sc = scratch(2 * m.glwe_trace_tmp_bytes(&lo, &a, &lk) + (1 << 16), fill);
+                            let mut sc = scratch(m.glwe_trace_tmp_bytes(&lo, &a, &lk), fill);
                             m.glwe_trace(&mut res, skip, &a, &keys, sc.borrow());
                             vec![glwe_dump(&res)]
                         } else {
                             let mut res = a.clone();
-                            let mut sc = scratch(2 * m.glwe_trace_tmp_bytes(&res, &res, &lk) + (1 << 16), fill);
+                            let mut sc = scratch(m.glwe_trace_tmp_bytes(&res, &res, &lk), fill);
                             m.glwe_trace_assign(&mut res, skip, &keys, sc.borrow());
                             vec![glwe_dump(&res)]
                         }
@@ -247,7 +246,7 @@ fn run(r: &Rec) -> Ran {
                         for (ct, i) in cts.iter_mut().zip(slots.iter()) { map.insert(*i, ct); }
                         let lo = h.glwe_out();
                         let mut res = GLWE::alloc_from_infos(&lo);
-                        let mut sc = scratch(2 * m.glwe_pack_tmp_bytes(&lo, &lk) + (1 << 16), fill);
+                        let mut sc = scratch(2 * m.glwe_pack_tmp_bytes(&lo, &lk) + (1 << 16), fill) /* declared size too small when the inputs are larger than the result: C12's property */;
                         m.glwe_pack(&mut res, map, log_gap, &keys, sc.borrow());
                         vec![glwe_dump(&res)]
                     });
@@ -271,7 +270,7 @@ fn run(r: &Rec) -> Ran {
                         // the accumulators have the layout of the result; the inputs their own
                         let lo = h.glwe_out();
                         let mut packer = poulpy_core::GLWEPacker::alloc(&lo, 0);
-                        let mut sc = scratch(2 * poulpy_core::glwe_packer_tmp_bytes(&m, &lo, &lk) + (1 << 16), fill);
+                        let mut sc = scratch(poulpy_core::glwe_packer_tmp_bytes(&m, &lo, &lk), fill);
                         let mut k = 0usize;
                         for i in 0..n {
                             if (mask >> i) & 1 == 1 {
@@ -307,7 +306,7 @@ fn run(r: &Rec) -> Ran {
                 (vs, try_op(|| {
                     let (mut o, same) = twice(|fill| {
                         let mut res = LWE::alloc(Degree(nl as u32), Base2K(h.out_b as u32), TorusPrecision((h.out_size * h.out_b) as u32));
-                        let mut sc = scratch(2 * m.lwe_from_glwe_tmp_bytes(&res, &a, &kp) + (1 << 16), fill);
+                        let mut sc = scratch(m.lwe_from_glwe_tmp_bytes(&res, &a, &kp), fill);
                         m.lwe_from_glwe(&mut res, &a, idx, &kp, sc.borrow());
                         vec![lwe_dump(&res)]
                     });
@@ -334,7 +333,7 @@ fn run(r: &Rec) -> Ran {
                     let (mut o, same) = twice(|fill| {
                         let lo = h.glwe_out();
                         let mut res = GLWE::alloc_from_infos(&lo);
-                        let mut sc = scratch(2 * m.glwe_from_lwe_tmp_bytes(&lo, &a, &kp) + (1 << 16), fill);
+                        let mut sc = scratch(2 * m.glwe_from_lwe_tmp_bytes(&lo, &a, &kp) + (1 << 16), fill) /* declared size too small when the inputs are larger than the result: C12's property */;
                         m.glwe_from_lwe(&mut res, &a, &kp, sc.borrow());
                         vec![glwe_dump(&res)]
                     });
@@ -521,8 +520,7 @@ pub fn generate(tier: &str, seed: u64) -> Vec<Rec> {
             let mut h = base(&mut rng, it, 2, true);
             h.n = n;
             let mask: u64 = match it % 3 { 0 => (1u64 << n) - 1, _ => (rng.next() & ((1u64 << n) - 1)) | 1 };
-            // inputs in the radix of the accumulators, except one record per N (radix mismatch: known finding, see tools/props/c03.py)
-            if it != 1 { h.in_b = h.out_b; }
+            if it % 2 == 0 { h.in_b = h.out_b; }
             out.push(mk(3033, &h, vec![0, kinds(&mut rng), rng.below(6) as i128, mask as i128]));
         }
     }
